@@ -245,7 +245,7 @@ func init() {
 		Level: "exploration",
 		Rule: "seeded random error chains (depth 0-8) built from all exported sentinels, io/context errors and fresh errors with wrapError, &Error{}, wrapErrorWithRetry, ConnectionError, fmt %w and a legacy Err-field type; for every chain, errors.Is against every sentinel, " +
 			"every chain node and an unrelated error must equal membership computed by an independent chain walker; retry closures must stay callable; io.EOF/nil pass through; RequestTimeoutError found by errors.As. " +
-			"API part: every request kind (publish q1, q2 both phases, subscribe, unsubscribe) interrupted at every step by every cause on a BaseClient; the returned error must expose the injected cause and an ErrorWithRetry whose Retry on a fresh client re-issues the same request (decoded on the wire). " +
+			"API part: every request kind (publish q1, q2 both phases, subscribe, unsubscribe) interrupted at every step by every cause on a BaseClient; the returned error must expose the injected cause and an ErrorWithRetry whose Retry on a fresh client re-issues the same request (decoded on the wire); retry-client runs with ResponseTimeout and acknowledgements dropped on first transmissions and on retransmissions: every OnError value that stems from an expired deadline must be a RequestTimeoutError (errors.As). " +
 			"Non-trivial: distinct chain shapes, distinct (kind,step,cause) API cases.",
 		Assumptions: []string{"error values that are pointers to non-struct types or typed nil pointers are not generated (none occur in the library or standard transports)",
 			"a Transport whose Write fails with bare io.EOF is outside the domain (wrapError passes io.EOF through by design, which drops the retry handle)"},
